@@ -122,6 +122,9 @@ class Model:
             tbl.setdefault(ed['opt']['name'], copy.deepcopy(ed['opt']))
         elif ed['kind'] == 'remove':
             tbl.pop(ed['name'], None)
+        elif ed['kind'] == 'swap':
+            tbl.pop(ed['name'], None)
+            tbl.setdefault(ed['opt']['name'], copy.deepcopy(ed['opt']))
         else:
             o = tbl.get(ed['name'])
             if o is None:
